@@ -23,9 +23,64 @@ var verifC09 struct {
 	failMask int
 }
 
+// A commit whose own context is already cancelled still has to wait for the commit in flight
+// before it: its (failing) turn must not let a later commit overtake the earlier one.
+func VerifC09_cancelledMiddleCommit() {
+	delays := 2
+	if verifThorough() {
+		delays = 4
+	}
+	verifPreemptions(delays)
+	verifC09.arrivals, verifC09.inflight, verifC09.maxIn, verifC09.failMask = nil, 0, 0, 0
+	cl := &Client{}
+	cl.cfg.logger = new(nopLogger)
+	cl.cfg.group = "g"
+	g := &groupConsumer{cl: cl, cfg: &cl.cfg, tps: newTopicsPartitions()}
+	g.memberGen.store("m", 1)
+	g.uncommitted = uncommitted{"t": {0: uncommit{}}}
+	offs := []int64{10, 20, 30}
+	var doneOrder []int
+	doneErr := make([]error, 3)
+	cancelled, cancel := context.WithCancel(context.Background())
+	cancel()
+	for i := 0; i < 3; i++ {
+		i := i
+		ctx := context.Background()
+		if i == 1 {
+			ctx = cancelled
+		}
+		g.mu.Lock()
+		g.commit(ctx, map[string]map[int32]EpochOffset{"t": {0: {Epoch: 1, Offset: offs[i]}}},
+			func(_ *Client, req *kmsg.OffsetCommitRequest, resp *kmsg.OffsetCommitResponse, err error) {
+				doneOrder = append(doneOrder, i)
+				doneErr[i] = err
+				if err == nil {
+					g.updateCommitted(req, resp)
+				}
+			})
+		g.mu.Unlock()
+	}
+	verifRunAll()
+	verifAssert(len(verifC09.arrivals) == 1 && verifC09.arrivals[0].offset == 10, "only the first commit is at the coordinator while it is unanswered")
+	close(verifC09.arrivals[0].gate)
+	verifRunAll()
+	verifAssert(len(verifC09.arrivals) == 2 && verifC09.arrivals[1].offset == 30, "the third commit follows once the first is answered and the cancelled one has failed")
+	close(verifC09.arrivals[1].gate)
+	verifRunAll()
+	verifAssert(verifC09.maxIn == 1, "never two commit requests in flight at once")
+	verifAssert(len(doneOrder) == 3 && doneOrder[0] == 0 && doneOrder[1] == 1 && doneOrder[2] == 2, "callbacks run once each, in issue order")
+	verifAssert(doneErr[0] == nil && doneErr[1] != nil && doneErr[2] == nil, "only the cancelled commit fails")
+	verifAssert(g.uncommitted["t"][0].committed.Offset == 30, "committed offset is that of the last successful commit")
+	verifAssert(verifBlockedCount() == 0, "no goroutine is left blocked")
+	verifReached("c09-cancelled-middle")
+}
+
 //verif:replace (*Client).Request
 func (cl *Client) verifC09Request(ctx context.Context, req kmsg.Request) (kmsg.Response, error) {
 	r := req.(*kmsg.OffsetCommitRequest)
+	if err := ctx.Err(); err != nil {
+		return nil, err // like the real client: a cancelled request is never sent
+	}
 	a := &verifC09Arrival{offset: r.Topics[0].Partitions[0].Offset, gate: make(chan struct{})}
 	a.fail = verifC09.failMask&(1<<len(verifC09.arrivals)) != 0
 	verifC09.arrivals = append(verifC09.arrivals, a)
